@@ -13,15 +13,18 @@ META = dict(
                '+ differential correspondence (model output must equal pg.to_html_str character by character, content and whole document) + sentinel oracle on the real output'),
     design_ref='DESIGN.md §5 C20',
     level_text=('Theorems: escape never emits < > " \' and every & it emits starts one of five entities; unescape inverts escape; every tree built from element/text nodes and constant style blocks '
-                'renders to a string the strict parser reads back as exactly that tree (well nested, closed, at any depth); for every value and option record (15 options) the tree view, and the whole '
+                'renders to a string the strict parser reads back as exactly that tree (well nested, closed, at any depth); for every value and option record (25 options: 15 plain ones, highlight/lowlight, the callable forms of key_style / include_keys / exclude_keys / uncollapse / key_color as arbitrary result tables, extra_flags) the tree view, and the whole '
                 '<html><head><style>..</style></head><body>..</body></html> document, render to a string that parses to elements/options/attributes of a fixed vocabulary only, whatever strings the value carries; '
-                'every included key and every leaf is a text node; no text of the value is in the head. '
+                'every included key and every leaf is a text node (also of the parsed output); no text of the value is in the head; the head is the same for values of the same shape. '
+                'Controls (Label, Badge, Tooltip, LabelGroup, ProgressBar, TabControl) are hnode builders with the same well-formedness / no-injection theorems; the JavaScript literal written by Html.escape(s, javascript_str=True) '
+                'is lexed back as exactly s and ends at its closing quote (update scripts for textContent / innerHTML). '
                 'Tie: the model is run on every generated (options, value) and its output compared, character by character, with pg.to_html_str(value, **options) both with content_only=True and as the full document; '
                 'the CSS constants are regenerated from tree_view.py each run and the proofs re-checked; '
                 'the Python strict tokenizer used by the oracle is compared with the proved Coq parser on real, broken and mutated outputs; html.escape is compared with the model escape.'),
     level_note=('Trusted: Coq kernel; translator harness/translators/html_styles.py; extraction (ExtrOcamlBasic) cross-checked against vm_compute; the harness conversion of a Python value to the model value, which calls '
                 'utils.format / repr / camel_to_snake to fill the strings the model treats as arbitrary (fmt, rep, cname). Modelled, not verified: those three functions (arbitrary strings in every theorem). '
-                'Options and value kinds covered by the oracle only (no model comparison): see coverage.options_oracle_only; HTML controls: oracle only.'),
+                'Python repr of Latin-1 strings is computed by the model (py_repr), other reprs / tooltips are carried. Covered by the oracle only: title, debug, child_config, pg.Ref / pg.Diff values, markup (Html) texts of controls; see coverage.options_oracle_only. '
+                'Trusted option strings of controls (id, css_classes, styles, link, target) are compared on metacharacter-free values; inside onclick the raw apostrophes of the code are compared as &#x27;.'),
     rule=('a case is (value, options) [or a control, a document for the tokenizer, a string for escape]; distinct by (generator seeds / literal, options); non-trivial when the value carries at least one string/key/class name with an HTML metacharacter'),
     trusted_base=['translator harness/translators/html_styles.py (fail-closed ast reader: CSS literals of HtmlTreeView, shapes of Html.to_str / head_section / style_section / script_section / body_section / Styles.content)',
                   'extraction: ExtrOcamlBasic only; ocaml/main.ml lexer/printer; cross-checked against vm_compute on a sample',
@@ -1197,7 +1200,12 @@ def run(ctx):
   forced = [['escape-js', 'render-value', 'render-controls', 'update-label', 'render-controls', 'render-value', 'render-value'],
             ['render-value', 'escape-html', 'update-label', 'update-tooltip', 'update-badge', 'update-group', 'render-controls', 'render-value'],
             ['update-label', 'update-tooltip', 'update-progress', 'tabs-append', 'tabs-insert', 'render-controls', 'render-value', 'render-value', 'update-label']]
-  for k in range(ctx.scale(60, 600)):
+  import time as _time
+  budget = (lambda frac: (not ctx.thorough) and _time.time() - ctx.t0 > 100 * frac)    # quick tier: wall-clock budget of 100 s, skipped work is reported
+  skipped = {}
+  for k in range(ctx.scale(40, 600)):
+    if budget(0.25) and k >= 3:
+      skipped['sequences'] = skipped.get('sequences', 0) + 1; continue
     spec = dict(kind='sequence', seed=rng.getrandbits(32), steps=forced[k] if k < len(forced) else None)
     shits, steps = run_sequence(spec)
     for sig, what, i in shits:
@@ -1209,7 +1217,7 @@ def run(ctx):
   specs = list(LITERALS)
   rows = pairwise(OPTION_SPACE, random.Random(rng.getrandbits(32)))
   ctx.extra['pairwise_rows'] = len(rows)
-  nvalues = ctx.scale(30, 160)
+  nvalues = ctx.scale(24, 160)
   for vi in range(nvalues):
     sseed = rng.getrandbits(32)
     for row in rows:
@@ -1236,14 +1244,16 @@ def run(ctx):
           if ex in ('include_fn', 'uncollapse_fn', 'key_style_fn'): sym[k] = DEFAULTS[k]
       specs.append(dict(kind='gen', sseed=rng.getrandbits(32), dseed=rng.getrandbits(32), hostile=True, sym=sym, depth=rng.choice([1, 2, 3]), extra=ex)); nextra += 1
   ctx.extra['options_modelled'] = sorted(MODELLED)
-  ctx.extra['options_oracle_only'] = EXTRAS + ['(callable forms of key_style / include_keys / exclude_keys / uncollapse / colors)']
+  ctx.extra['options_oracle_only'] = ['exotic (pg.Ref, pg.Diff)', 'debug', 'title', 'child_config']
   ctx.log('%d cases (%d pairwise rows x %d values, %d oracle-only)' % (len(specs), len(rows), nvalues, nextra))
 
   # ---- run implementation, oracle, and collect model cases
   trs, impl_outs, descr = [], [], []
   outputs = []
   nsent = 0
-  for spec in specs:
+  for ispec, spec in enumerate(specs):
+    if budget(0.6) and ispec > len(LITERALS) + 200:
+      skipped['tree_view_cases'] = skipped.get('tree_view_cases', 0) + 1; continue
     value, kw, data = build_case(spec)
     twin = None
     if spec['kind'] == 'gen' and rng.random() < 0.25:
@@ -1289,6 +1299,7 @@ def run(ctx):
       if full is not None and len(full) < 9000 and rng.random() < 0.1:
         outputs.append(full)
   ctx.extra['sentinel_tagged_data'] = nsent
+  ctx.extra['skipped_for_wall_clock_budget'] = skipped
   # ---- an error in the middle of rendering propagates and leaves the per-thread view state clean
   for probe in ([1, {'a': Exploding()}], {'k': [Exploding()]}, Exploding()):
     t0 = tls_state()
